@@ -230,12 +230,20 @@ func (r *RPCReadResponse) DecodeFrom(d *types.Decoder) {
 	//
 	// NOTE: for maximum efficiency, we should be doing this for every slice,
 	// but in most cases the extra performance isn't worth the aliasing issues.
-	dataLen := int(d.ReadUint64())
-	if cap(r.Data) < dataLen {
-		r.Data = make([]byte, dataLen)
+	dataLen := d.ReadUint64()
+	if uint64(cap(r.Data)) >= dataLen {
+		r.Data = r.Data[:dataLen]
+		d.Read(r.Data)
+	} else {
+		// the length is untrusted: grow the buffer as the data arrives
+		// rather than allocating dataLen bytes up front
+		r.Data = r.Data[:0]
+		for uint64(len(r.Data)) < dataLen && d.Err() == nil {
+			n := min(dataLen-uint64(len(r.Data)), uint64(max(len(r.Data), 4096)))
+			r.Data = append(r.Data, make([]byte, n)...)
+			d.Read(r.Data[uint64(len(r.Data))-n:])
+		}
 	}
-	r.Data = r.Data[:dataLen]
-	d.Read(r.Data)
 
 	types.DecodeSlice(d, &r.MerkleProof)
 }
